@@ -494,11 +494,11 @@ def _interp_extra(prop):
 
 EXTRA_TIERS['C15'] = _interp_extra('C15')
 EXTRA_TIERS['C16'] = _interp_extra('C16')
-GAPS['C15'] = ['every interpolation algorithm except the 1-d piecewise-linear one-point kernel (akima, lagrange2/3, cubic, scipy wrappers, 2-D/3-D fixed variants, the recursive n-d evaluation in InterpAlgorithm.evaluate): BOUNDED tier only',
-               'Interp1DSlinear is proved on a 4-point axis (all bracket indices enumerated; coordinates, table values and x symbolic) because its coefficient cache is a dict keyed by the bracket index',
+GAPS['C15'] = ['every interpolation algorithm except the three 1-d fixed one-point kernels Interp1DSlinear / Interp1DLagrange2 / Interp1DLagrange3 (akima, cubic, scipy wrappers, the general recursive InterpLinear/InterpLagrange2/3 classes, 2-D/3-D fixed variants, the vectorized paths, the recursive n-d evaluation in InterpAlgorithm.evaluate): BOUNDED tier only',
+               'the three 1-d kernels are proved on 4- / 4- / 5-point axes (all bracket indices enumerated; coordinates, table values and x symbolic) because their coefficient cache is a dict keyed by the bracket index; the Lagrange value / derivative identities are rational-function identities discharged by the SymPy identity back end (divisors shown non-zero by z3)',
                'bracketing (InterpAlgorithm.bracket / searchsorted) that produces the bracket index', 'NaN coordinates (reals, assumption A2)',
                'MetaModelStructuredComp / MetaModelSemiStructuredComp / SplineComp wiring: bounded tier only']
-GAPS['C16'] = ['derivatives of every algorithm except the 1-d piecewise-linear one-point kernel: BOUNDED tier only', 'd/dvalues (training gradients) and spline-mode gradients: BOUNDED tier only',
+GAPS['C16'] = ['derivatives of every algorithm except the three 1-d fixed one-point kernels (slinear, lagrange2, lagrange3): BOUNDED tier only', 'd/dvalues (training gradients) and spline-mode gradients: BOUNDED tier only',
                'requests for table gradients that raise (methods without d/dvalues support; akima with more than one table dimension) return no derivative and are outside the statement: counted in the evidence, not failures',
                'points on cell boundaries (one-sided derivatives)']
 
